@@ -26,6 +26,15 @@ FUNCS = ["tonic", "supertonic", "mediant", "subdominant", "dominant", "submedian
 
 def battery():
     out = []
+    # FIRST (so that the cold interpreter answers them with empty memo tables): chords built on ANY note in a key, also
+    # notes outside the key - must not depend on what was computed before
+    for k in ("C", "Eb", "f#", "a", "G", "Bb"):
+        for n in [l + a for l in "CDEFGAB" for a in ("", "#", "b")]:
+            for f in ("triad", "seventh"):
+                try:
+                    out.append((f, n, k, getattr(chords, f)(n, k)))
+                except Exception as e:
+                    out.append((f, n, k, "raised " + type(e).__name__))
     for k in KEYS:
         out.append(("get_notes", k, keys.get_notes(k)))
         out.append(("triads", k, chords.triads(k)))
@@ -232,7 +241,7 @@ def rand_calls(rng, n):
     nq = 0
     for _ in range(n):
         k = rng.random()
-        key = rng.choice(["C", "Eb", "f#", "a", "G", "H"]) if rng.random() < 0.7 else rng.choice(KEYS)
+        key = rng.choice(["C", "Eb", "f#", "a", "G", "Bb", "H"]) if rng.random() < 0.7 else rng.choice(KEYS)
         if k < 0.65 or nq == 0:
             a = rng.choice(["get_notes", "triads", "sevenths", "func", "func", "to_chords"])
             if a == "func":
